@@ -650,6 +650,9 @@ func genC06(r *Rand, tier string) []Case {
 
 func genNested(r *Rand, t table, depth int) []any {
 	n := r.Intn(4)
+	if depth > 2 {
+		n = 1 + r.Intn(2) // deep sources: few siblings per level, but every level present
+	}
 	out := make([]any, 0, n)
 	for i := 0; i < n; i++ {
 		if depth <= 1 {
@@ -675,6 +678,9 @@ func genC08(r *Rand, tier string) []Case {
 	for i := 0; i < n; i++ {
 		t := genTable(r, 5)
 		depth := 1 + r.Intn(2)
+		if r.Chance(8) {
+			depth = 4 + r.Intn(3) // five to seven array levels
+		}
 		doc := map[string]any{"n": genNested(r, t, depth)}
 		var tags []string
 		tags = append(tags, fmt.Sprintf("nest:%d", depth+1))
@@ -714,6 +720,13 @@ func genC08(r *Rand, tier string) []Case {
 		if r.Chance(25) {
 			q.From.Fn = "mix"
 			tags = append(tags, "mix")
+		}
+		if r.Chance(8) {
+			// the nested source sits under a key spelled like the pseudo table
+			doc["dual"] = doc["n"]
+			delete(doc, "n")
+			q.From.Path = []string{"dual"}
+			tags = append(tags, "source-key-named-dual")
 		}
 		c := mkCase(doc, q, tags, true)
 		if nn, ok := doc["n"].([]any); ok && len(nn) >= 1 && r.Chance(20) {
